@@ -40,6 +40,9 @@ MonNext(m, e) ==
          LET S == {e.blocked[i] : i \in DOMAIN e.blocked} IN
          IF \E k \in S : k \in DOMAIN m.ctxOf /\ Get(m.done, m.ctxOf[k], FALSE) /\ m.ctxOf[k] \notin m.parked
          THEN Fail(m, "C04:lookup-still-blocked-after-the-generation-finished")
+         \* nobody generates for the context (the generating lookup failed or was cancelled) and yet a lookup goes on waiting
+         ELSE IF \E k \in S : k \in DOMAIN m.ctxOf /\ ~Get(m.done, m.ctxOf[k], FALSE) /\ m.ctxOf[k] \notin m.parked
+         THEN Fail(m, "C04:lookup-blocked-although-no-generation-is-in-progress-for-its-context")
          ELSE m
     [] e.ev = "final" ->
          IF e.c \in DOMAIN m.first /\ \E i \in DOMAIN e.vals : e.vals[i] # m.first[e.c] THEN Fail(m, "C04,C03:table-holds-another-object-than-the-lookups-returned")
